@@ -61,6 +61,10 @@ def build(backend, tier):
         for g in sorted(set(good + weak_guards)):
             add(f"and:{name}", f"ds.Select(lambda e: ({g} and {p} > 0))")
             add(f"or-not:{name}", f"ds.Select(lambda e: ((not {g}) or {p} > 0))")
+            add(f"and3:{name}", f"ds.Select(lambda e: ({g} and {T}.Count() >= 0 and {p} > 0))")
+            add(f"and3-mid:{name}", f"ds.Select(lambda e: ({T}.Count() >= 0 and {g} and {p} > 0))")
+            add(f"or3:{name}", f"ds.Select(lambda e: ((not {g}) or {T}.Count() < 0 or {p} > 0))")
+            add(f"and3-nested:{name}", f"ds.Select(lambda e: (({g} and {T}.Count() >= 0) and {p} > 0))")
             add(f"and-swapped:{name}", f"ds.Select(lambda e: ({p} > 0 and {g}))")
             add(f"if-body:{name}", f"ds.Select(lambda e: ({p} if {g} else -1))")
             add(f"if-else:{name}", f"ds.Select(lambda e: (-1 if not {g} else {p}))")
